@@ -43,7 +43,7 @@ def drop(d):
 
 def fix_demo(text, wt):
     """demos insert their own worktree path; point them at `wt`"""
-    return re.sub(r"/var/tmp/w[2345678]?_C\d\d", wt, text)
+    return re.sub(r"/var/tmp/w[23456789]?_C\d\d", wt, text)
 
 
 def run_demo(demo_path, wt):
